@@ -352,7 +352,16 @@ func runC11(cfg *vh.Config) error {
 	inputs = append(inputs, input{"a = " + strings.Repeat("[", 1500) + strings.Repeat("]", 1500) + "\n", "deep", true})
 	if mvd >= 2 && mvd <= 200000 {
 		for _, n := range []int{mvd - 1, mvd, mvd + 1} {
-			inputs = append(inputs, input{"a = " + strings.Repeat("[", n) + strings.Repeat("]", n) + "\n", "deep", cfg.Tier == "thorough"})
+			inputs = append(inputs, input{"a = " + strings.Repeat("[", n) + strings.Repeat("]", n) + "\n", "deep", false})
+			if cfg.Tier == "thorough" {
+				// the model exactly at the bound (about 15 s per case in Coq): projected result only, the input is built in Coq
+				for _, ff := range []bool{true, false} {
+					pr := bcl.ParseFile("a = "+strings.Repeat("[", n)+strings.Repeat("]", n)+"\n", ff)
+					cf.Terms = append(cf.Terms, fmt.Sprintf("CDeep %d %d %s %s %d %s", n, n, vh.BoolTerm(ff), vh.BoolTerm(pr.TreeNil), len(pr.Body), diagsTerm(pr.Diags)))
+					res.Cases = append(res.Cases, vh.CaseRec{Case: caseNo, Stream: "deep", Input: fmt.Sprintf("a = %d x [ %d x ] failFast=%v", n, n, ff), Impl: fmt.Sprint(pr.Diags)})
+					caseNo++
+				}
+			}
 			// the bound counts nesting, not brackets: siblings at the deepest level do not add depth
 			inputs = append(inputs, input{"a = " + strings.Repeat("[", n-1) + "[1], [2, [3]]" + strings.Repeat("]", n-1) + "\n", "deep", false})
 		}
